@@ -75,8 +75,21 @@ def text_has(*subs: str) -> Callable[[ast.AST], bool]:
         if isinstance(st, (ast.If, ast.For, ast.While, ast.With, ast.Try, ast.FunctionDef, ast.ClassDef)):
             from .model import norm_stmt
             s = norm_stmt(st, 10000)
+            body = getattr(st, "body", [])
+            if isinstance(st, ast.If) and len(body) == 1 and not isinstance(body[0], (ast.If, ast.For, ast.While, ast.With, ast.Try)):
+                s += ": " + " ".join(ast.unparse(body[0]).split())  # one-line `if x: stmt`
         else:
             s = ast.unparse(st)
+        return all(x in s for x in subs)
+    return p
+
+
+def simple_has(*subs: str) -> Callable[[ast.AST], bool]:
+    """like text_has but matches simple (non-compound) statements only."""
+    def p(st):
+        if isinstance(st, (ast.If, ast.For, ast.While, ast.With, ast.Try, ast.FunctionDef, ast.ClassDef)):
+            return False
+        s = ast.unparse(st)
         return all(x in s for x in subs)
     return p
 
